@@ -383,6 +383,9 @@ func histOps(filters []string, rnames []string, nsubs int) []hop {
 // other searches keep their alphabets and depths)
 var withRemoveAll bool
 
+// twinSubs makes the subscriber objects of a history search deeply equal (and distinct)
+var twinSubs bool
+
 var probeNames = allNames()
 
 func allNames() []string {
@@ -402,6 +405,11 @@ func histories(e *env, filters, rnames []string, depthAll, depthBFS int) {
 func historiesN(e *env, filters, rnames []string, depthAll, depthBFS, nsubs int) {
 	ops := histOps(filters, rnames, nsubs)
 	subsObj := []*sub{{"s1"}, {"s2"}, {"s3"}, {"s4"}}
+	if twinSubs {
+		// distinct subscriber objects with equal contents: a subscriber is the object,
+		// not what it holds
+		subsObj = []*sub{{"tw"}, {"tw"}, {"tw"}, {"tw"}}
+	}
 	probeFilters := append(append([]string{}, filters...), "#", "+", "+/+", "a/+", "+/b")
 	run := func(hist []int) (string, string, int) {
 		mt := topics.NewMemProvider()
@@ -633,6 +641,14 @@ func C06(c *core.Ctx) {
 		historiesN(e, []string{"a", "a/b"}, nil, 4, 6, 2)
 	}
 	withRemoveAll = false
+	// subscribers that are distinct objects with equal contents
+	twinSubs = true
+	if c.Thorough() {
+		historiesN(e, []string{"a", "a/+"}, nil, 5, 7, 3)
+	} else {
+		historiesN(e, []string{"a", "a/+"}, nil, 4, 6, 2)
+	}
+	twinSubs = false
 	// rejected filters on a populated store: they share leading levels with held subscriptions
 	if c.Thorough() {
 		histories(e, []string{"a/b", "a/b/a", "a/#/b", "a/b+", "a/b/#/a"}, []string{"a/b"}, 3, 5)
